@@ -37,7 +37,7 @@ AddComp == /\ pc = "build" /\ Len(vec) < MaxLen
               ELSE \E c \in {RandomElement(Comps)} : Usable(c.pr, c.x) /\ vec' = Append(vec, c)
            /\ pc' = pc
 Finish == /\ pc = "build" /\ Len(vec) >= 1
-          /\ (Mode = "vector" => Len(vec) = MaxLen \/ RandomElement(1..3) = 1)
+          /\ IF Mode = "vector" THEN (IF Len(vec) = MaxLen THEN TRUE ELSE RandomElement(1..3) = 1) ELSE TRUE
           /\ pc' = "done" /\ vec' = vec
 Next == AddComp \/ Finish
 Spec == Init /\ [][Next]_vars
